@@ -37,10 +37,12 @@ Definition init6 : list op :=
    NewGroup (Some 1); px (Some 1) 4 4 2 2; Append 4 5].
 (* 7: empty: nothing exists yet (random walks build their own scene) *)
 Definition init7 : list op := [].
+(* 8: a document without layers and two detached pixel layers made for it (first layer in / last layer out) *)
+Definition init8 : list op := [NewDoc 8 8; px (Some 0) 1 1 2 2; px (Some 0) 3 3 3 2].
 
 Definition init (k : Z) : list op :=
   match k with
-  | 0 => init0 | 1 => init1 | 2 => init2 | 3 => init3 | 4 => init4 | 5 => init5 | 6 => init6 | _ => init7
+  | 0 => init0 | 1 => init1 | 2 => init2 | 3 => init3 | 4 => init4 | 5 => init5 | 6 => init6 | 8 => init8 | _ => init7
   end.
 
 (* a case is (scene number, history); the answer is one digest over the per-step digests *)
